@@ -266,3 +266,35 @@ func HarnessAwaitOnlyWeight() {
 	vrt.Assert(collected < launched, "later-hook-starts-only-after-an-earlier-await-point-was-passed")
 	vrt.Reach("ordered")
 }
+
+// Two calls started at the same point and awaited at two different weights of one later moment (the first one fails):
+// both are collected - the failure is reported, cancelling the transition if the moment lies before the task part -
+// and nothing stays pending.
+//verif:entry HarnessTwoDeferredAwaits unwind=64 preempt=1 reach=cancelled,reported stub=github.com/AliceO2Group/Control/common/utils.TimeTrack nosched=github.com/AliceO2Group/Control/core/the.mu
+func HarnessTwoDeferredAwaits() {
+	m := vrt.IntRange("await.moment", 1, 3) // leave_DEPLOYED, enter_CONFIGURED, after_CONFIGURE
+	wa := vrt.IntRange("first.await.weight", 0, 2)
+	wb := vrt.IntRange("second.await.weight", 0, 2)
+	vrt.Assume(wa != wb)
+	rec := &fenvRec{}
+	rec.onCall = func(c *callable.Call) error {
+		if c.GetName() == "root.a" {
+			return failingCall(c)
+		}
+		return nil
+	}
+	env := fenvNew(&fenvConf{}, rec, "DEPLOYED", []fenvHook{
+		{name: "a", trigger: "before_CONFIGURE+0", await: c08Moments[m] + c08Weights[wa], critical: true},
+		{name: "b", trigger: "before_CONFIGURE+0", await: c08Moments[m] + c08Weights[wb], critical: true},
+	})
+	err := env.TryTransition(fenvTransition{name: "CONFIGURE", rec: rec})
+	vrt.Assert(err != nil, "failure-of-a-call-awaited-later-is-collected-and-reported")
+	if m == 1 {
+		vrt.Assert(env.CurrentState() == "DEPLOYED" && rec.count("do:CONFIGURE:begin") == 0, "cancelled-transition-keeps-the-source-state")
+		vrt.Reach("cancelled")
+	} else {
+		vrt.Assert(env.CurrentState() == "CONFIGURED", "late-critical-failure-keeps-the-destination-state")
+		vrt.Reach("reported")
+	}
+	vrt.Assert(rec.count("call:root.a:end") == 1, "the-failing-call-ran")
+}
